@@ -119,34 +119,10 @@ HISTORY = {
                                  "corpus/shifting.py in the real leg (re-execution oracle)",
     "C06-root-dependence-memo": "MISSED at first: accessors were queried once, in block order -> other query orders on "
                                 "fresh CDGs + static seed (cold handler after a loop of tries)",
-    "C15-mutate-value-copies-used-vars": "MISSED, still not reported by the quick tier: needs a collection statement, an "
-                                         "element variable in scope, mutate_value choosing that statement AND the "
-                                         "reference branch AND a later delete of the producer (> 3 coordinated "
-                                         "non-default answers; a targeted d=3 exploration of 30 569 executions did "
-                                         "not reach it); full index menus were added on the way",
-    "C30-explicit-seed-not-tracked": "MISSED at first: the SUT had no long-lived Random instance -> module-level "
-                                     "explicitly seeded / default instances",
-    "C22-changed-only-if-deleted-indexes": "MISSED at first: no stateful SUT in the quick tier -> corpus/stateful.py "
-                                           "with call-sequence populations (all sequences of <= 3 accessibles)",
-    "C17-elif-test-executions-condition": "MISSED at first: one budget per cell -> cells with two budgets at once",
-    "C28-relink-only-if-replaced": "MISSED at first: no nested mutation sites in a single-node field -> four menu items",
-    "C24-receiver-chain-root": "MISSED at first: no isinstance/len assertion on a field -> Node class in the nested corpus",
-    "C12-clone-drops-dirty-state": "caught outright",
-    "C23-scalar-render-lru-cache": "caught outright",
-    "C14-singleton-front-distance": "caught outright",
-    "C21-kill-map-skips-raising-tests": "caught outright",
-    "C05-predicate-callbacks-no-finally": "caught outright",
-    "C03-second-trybegin-not-split": "caught outright",
-    "C02-pop-top-never-starts-line": "caught outright",
-    "C19-export-dedup-per-function": "MISSED at first: no value that changes and comes back (A -> B -> A) -> call "
-                                     "sequences on one stateful object (corpus/stateful.py)",
-    "C35-branchless-carry-over-covered": "MISSED at first: no two branch-less code objects starting on one line -> two "
-                                         "lambdas in one tuple literal (corpus/lambdas.py)",
-    "C32-proxy-exit-stops-unconditionally": "not a C32 violation in the words of C32 (nothing is ADDED to later results; a "
-                                            "later result is LOST): reported by the C30 check, which owns that clause "
-                                            "(checks.txt = C32 C30)",
-    "C07-root-test-visited-after-recursion": "MISSED at first: no SEND loop below a branch -> two static seeds (await / "
-                                             "yield from below a branch); the quick tier now includes the static seeds",
+    "C15-mutate-value-copies-used-vars": "MISSED at first (and for several hours): the factory needs > 3 non-default "
+                                         "answers to build a collection next to an in-scope variable, which used up the "
+                                         "deviation budget -> hand-written NON-INITIAL roots, positional operations, "
+                                         "cold and warmed statement caches (full index menus were added on the way)",
     "C16-static-constants-set-of-paths": "MISSED at first: the module under test was never inside a package -> package "
                                          "cells (sibling modules with constants)",
     "C31-reap-before-recv": "MISSED at first: no result larger than a pipe buffer -> equalish.blob (128 KiB string)",
